@@ -55,6 +55,9 @@ func init() {
 	add("c04-leafs-walk-cut-short", "C04.leafs", D, "\t\t\tswitch iv.V.(type) {\n\t\t\tcase *Compound:\n\t\t\tdefault:", "\t\t\tswitch iv.V.(type) {\n\t\t\tcase *Compound:\n\t\t\t\tif iv.Err != nil {\n\t\t\t\t\treturn ErrWalkSkipChildren\n\t\t\t\t}\n\t\t\tdefault:", "no-abort")
 	add("c04-leafs-collect-conditional", "C04.leafs", D, "\t\tvalueRanges[i] = iv.Range\n\t\ti++\n", "\t\tif iv.Err == nil {\n\t\t\tvalueRanges[i] = iv.Range\n\t\t\ti++\n\t\t}\n", "FillGaps:collect:unconditional")
 	add("c04-leafs-skip-leading-gap", "C04.leafs", D, "\tfor i, gap := range gaps {\n", "\tfor i, gap := range gaps {\n\t\tif gap.Start == 0 && d.Value.Parent != nil {\n\t\t\tcontinue\n\t\t}\n", "FillGaps:gap-add")
+	add("c04-leafs-shared-bitbuf", "C04.leafs", D, "\tfor i, gap := range gaps {\n\t\tbr, err := bitiox.Range(d.bitBuf, gap.Start, gap.Len)\n\t\tif err != nil {\n\t\t\td.IOPanic(err, namePrefix, \"bitiox.Range\")\n\t\t}\n\n\t\tv := &Value{\n\t\t\tName: fmt.Sprintf(\"%s%d\", namePrefix, i),\n\t\t\tV: &scalar.BitBuf{\n\t\t\t\tActual: br,\n\t\t\t\tFlags:  scalar.FlagGap,\n\t\t\t},",
+		"\tgapBitBuf := scalar.BitBuf{Flags: scalar.FlagGap}\n\tfor i, gap := range gaps {\n\t\tbr, err := bitiox.Range(d.bitBuf, gap.Start, gap.Len)\n\t\tif err != nil {\n\t\t\td.IOPanic(err, namePrefix, \"bitiox.Range\")\n\t\t}\n\n\t\tgapBitBuf.Actual = br\n\t\tv := &Value{\n\t\t\tName: fmt.Sprintf(\"%s%d\", namePrefix, i),\n\t\t\tV:    &gapBitBuf,", "FillGaps:gap-value:fresh-bits")
+	add("c04-leafs-shared-value", "C04.leafs", D, "\tfor i, gap := range gaps {\n\t\tbr, err := bitiox.Range(d.bitBuf, gap.Start, gap.Len)\n\t\tif err != nil {\n\t\t\td.IOPanic(err, namePrefix, \"bitiox.Range\")\n\t\t}\n\n\t\tv := &Value{\n", "\tv := &Value{}\n\tfor i, gap := range gaps {\n\t\tbr, err := bitiox.Range(d.bitBuf, gap.Start, gap.Len)\n\t\tif err != nil {\n\t\t\td.IOPanic(err, namePrefix, \"bitiox.Range\")\n\t\t}\n\n\t\t*v = Value{\n", "FillGaps:gap-value")
 	// C04.merge (second round)
 	add("c04-merge-span-wrong-elem", "C04.merge", R, "\t\t\t\tif ranges[j].Stop() > m.Stop() {\n\t\t\t\t\tm.Len = ranges[j].Stop() - m.Start\n\t\t\t\t}", "\t\t\t\tm = MinMax(m, ranges[i])", "Gaps:merge-predicate")
 	// C04.walk
